@@ -168,7 +168,7 @@ func genC12(c *Ctx) {
 	}
 	scriptSrc, scripts := c12Scripts(c, pkg)
 	lengthChecked := c12LengthChecked(c, scripts)
-	src := "/-! GENERATED by go/extract (c12.go) from /repo's working tree: index/snapshot.go (WriteTo, recordSegment,\nwriteVarLenString, ReadFrom, readFromVersion1, readSegmentSnapshot, readVarLenString, readN), index/count.go\n(countHashWriter.Write, countHashReader.Read) and index/writer.go (loadSnapshot). Do not edit. -/\nnamespace BlugeGen.C12\n\n" +
+	src := "/-! GENERATED by go/extract (c12.go) from /repo's working tree: index/snapshot.go (WriteTo, recordSegment,\nwriteVarLenString, ReadFrom, readFromVersion1, readSegmentSnapshot, readVarLenString, readN), index/count.go\n(countHashWriter.Write, countHashReader.Read) and index/writer.go (loadSnapshot, loadSnapshots). Do not edit. -/\nnamespace BlugeGen.C12\n\n" +
 		"/-- length-prefixed fields are read by `readN` (bounded steps, full reads), the version by `io.ReadFull`,\n`readVarLenString` tolerates `io.EOF` from `Peek` -/\ndef boundedReads : Bool := " + b(bounded) + "\n\n" +
 		"/-- the segment loop counts in `uint64` (not `int(numSegments)`) -/\ndef uintLoop : Bool := " + b(uintLoop) + "\n\n" +
 		"/-- `loadSnapshot` copies the CRC bytes before it closes the item -/\ndef crcCopy : Bool := " + b(crcCopy) + "\n\n" +
@@ -553,6 +553,13 @@ func (x *c12n) block(list []ast.Stmt, depth int) {
 		case *ast.ReturnStmt:
 			x.emit(depth, strings.TrimSpace("return "+x.exprs(v.Results)))
 			lastSet = -1
+		case *ast.BranchStmt:
+			b := v.Tok.String()
+			if v.Label != nil {
+				b += " " + v.Label.Name
+			}
+			x.emit(depth, b)
+			lastSet = -1
 		default:
 			x.refuse(st, "statement form not understood")
 		}
@@ -603,6 +610,7 @@ func c12Scripts(c *Ctx, pkg *Pkg) (string, map[string][]string) {
 	def("countHashWriterWrite", "countHashWriter.Write", "`(*countHashWriter).Write`", false)
 	def("countHashReaderRead", "countHashReader.Read", "`(*countHashReader).Read`", false)
 	def("loadSnapshot", "Writer.loadSnapshot", "call script of `(*Writer).loadSnapshot`", false)
+	def("loadSnapshots", "Writer.loadSnapshots", "call script of `(*Writer).loadSnapshots` (the writer's walk over the snapshot files)", false)
 	return b.String(), all
 }
 
